@@ -58,7 +58,7 @@ CompNames == {"ampere_sgemm_128x64_nn",
               "void at::native::vectorized_elementwise_kernel<4, at::native::MulFunctor<float> >(int, float)"}
 CommNames == {"ncclKernel_AllReduce_RING_LL_Sum_float(ncclWorkElem)",
               "ncclDevKernel_AllGather_RING_LL(ncclDevComm*)"}
-MemcpyNames == {"Memcpy HtoD (Pageable -> Device)", "Memcpy DtoH (Device -> Pageable)",
+MemcpyNames == {"Memcpy HtoD (Pageable -> Device)", "Memcpy HtoD (Pinned -> Device)", "Memcpy DtoH (Device -> Pageable)",
                 "Memcpy DtoD (Device -> Device)"}
 MemsetNames == {"Memset (Device)"}
 SyncNames == {"Stream Sync", "Context Sync", "Event Sync", "Stream Wait Event"}
@@ -107,6 +107,16 @@ Partners(T, e) == IF e.corr < 0 THEN {}
 (***************************************************************************)
 HostEvents(T) == { e \in T : Host(e) }
 DevEvents(T)  == { e \in T : Dev(e) }
+
+\* the link of e: the id of its partner, 0 when the partner is absent, -1 without a correlation id
+LinkOf(R, e) == IF e.corr < 0 THEN -1
+                ELSE LET P == Partners(R, e)
+                     IN IF P = {} THEN 0
+                        ELSE IF Cardinality(P) = 1 THEN (CHOOSE p \in P : TRUE).id
+                        ELSE -2      \* ambiguous: excluded by WellFormed
+\* the link column of the loaded rows is the link relation of the FILE (entries [id, name, cat, stream, corr]): analyses that take the
+\* column as their input are judged on inputs that still say what the file said
+LinksFaithful(T, file) == \A x \in T : \E f \in file : f.id = x.id /\ x.link = LinkOf(file, f)
 
 \* the part of well-formedness that survives trimming: what holds of the rows of a loaded frame
 \* every loaded row still says what the file entry at the position named by its id said
